@@ -986,7 +986,22 @@ func checkC19(rc *RunCtx, in *minInst, r *minRun, nTasks int) *Violation {
 		}
 		if isLocal(in.method) {
 			f0 := in.obj.F(in.initX)
-			if !math.IsNaN(f0) && !math.IsNaN(res.F) && res.F > f0 {
+			// NaN is worse than any value the start could have
+			if !math.IsNaN(f0) && (math.IsNaN(res.F) || res.F > f0) {
+				if math.IsNaN(res.F) {
+					// where did the NaN enter? (the first dim+1 evaluations of
+					// NelderMead build its initial simplex)
+					class += "/" + name + "/nan-result"
+					early := in.dim + 1
+					if in.initVals > 0 {
+						early = in.dim
+					}
+					for k := 0; k < log.n && k < early; k++ {
+						if in.method == mNelderMead && math.IsNaN(log.fs[k]) {
+							class = "local/NelderMead/nan-vertex-in-initial-simplex"
+						}
+					}
+				}
 				return &Violation{prop, "minimize/coherence-no-worse-than-start/" + class, fmt.Sprintf("%s: Result.F=%v is worse than the initial point's %v", name, res.F, f0)}
 			}
 		}
@@ -1030,7 +1045,11 @@ func checkC19(rc *RunCtx, in *minInst, r *minRun, nTasks int) *Violation {
 		if in.set.GradientThreshold > th {
 			th = in.set.GradientThreshold
 		}
-		if err == nil {
+		// With several tasks in circulation MajorIterations that arrive after
+		// the terminating one still move the reported optimum, so the gradient
+		// at the final X says nothing about the iteration that stopped the
+		// run: checked for single-task runs only.
+		if err == nil && nTasks == 1 {
 			if n := gradNormInf(in.obj, res.X); !(n < th) {
 				return bad(fmt.Sprintf("the gradient norm at X is %v, threshold %v", n, th))
 			}
